@@ -39,7 +39,17 @@ def _eval_chunk(args):
     out = []
     try:
         for c in cases:
-            r = fn(c)
+            try:
+                r = fn(c)
+            except Exception as e:  # noqa: BLE001
+                # an exception escaping from the code under test in a place where the check does not expect one
+                # (set-up, observation) is a finding about that code, not a failure of the machinery
+                from .opgraph import blames_darr
+                if not blames_darr(e):
+                    raise
+                r = ([({'oracle': 'unexpected', 'op': 'evaluate', 'symptom': f'unexpected {type(e).__name__} from Darr'},
+                       f'evaluating this case, Darr raised {e!r:.200} where no exception is possible on a correct tree', {})],
+                     None, 1)
             # r: (violations, class label or None, extra-evaluations)
             out.append(r)
     finally:
